@@ -387,7 +387,7 @@ def sorted_rle_gather_1d(rle_data, ordered_indices):
         while start <= index:
             try:
                 value = next(data_iter)
-                start += next(data_iter)
+                start += int(next(data_iter))
             except StopIteration:
                 raise IndexError(
                     "Index %d out of range of raw_values length %d", index, start
@@ -531,7 +531,7 @@ def sorted_brle_gather_1d(brle_data, ordered_indices):
         while start <= index:
             try:
                 value = not value
-                start += next(data_iter)
+                start += int(next(data_iter))
             except StopIteration:
                 raise IndexError(
                     "Index %d out of range of raw_values length %d", index, start
